@@ -1120,22 +1120,20 @@ func (d *Data) GetKeysInRange(ctx storage.VersionedCtx, keyBeg, keyEnd string) (
 			pos++
 		}
 	} else {
-		var begTKey, endTKey storage.TKey
-		begTKey, err = NewTKey(keyBeg)
-		if err != nil {
-			return nil, err
-		}
-		endTKey, err = NewTKey(keyEnd)
-		if err != nil {
-			return nil, err
-		}
+		// The stored keys are decimal strings, whose lexicographic order is not the numeric order of the
+		// body ids ("10" < "9"): scan all annotation keys and select numerically, as the in-memory path does.
+		var ids []uint64
 		process_func := func(key string) {
 			bodyid, err := parseKeyStr(key)
 			if err == nil && bodyid >= bodyidBeg && bodyid <= bodyidEnd {
-				keys = append(keys, key)
+				ids = append(ids, bodyid)
 			}
 		}
-		err = d.processStoreKeysInRange(ctx, begTKey, endTKey, process_func)
+		err = d.processStoreKeysInRange(ctx, MinAnnotationTKey, MaxAnnotationTKey, process_func)
+		sort.Slice(ids, func(i, j int) bool { return ids[i] < ids[j] })
+		for _, bodyid := range ids {
+			keys = append(keys, strconv.FormatUint(bodyid, 10))
+		}
 	}
 	return
 }
@@ -1739,14 +1737,9 @@ func (d *Data) sendJSONValuesInRange(ctx storage.VersionedCtx, w http.ResponseWr
 		return 0, err
 	}
 
-	first, err := NewTKey(keyBeg)
-	if err != nil {
-		return 0, err
-	}
-	last, err := NewTKey(keyEnd)
-	if err != nil {
-		return 0, err
-	}
+	// The stored keys are decimal strings, whose lexicographic order is not the numeric order of the
+	// body ids: the store path scans all annotations and selects numerically, as the in-memory path does.
+	first, last := MinAnnotationTKey, MaxAnnotationTKey
 	db, err := datastore.GetOrderedKeyValueDB(d)
 	if err != nil {
 		return 0, err
@@ -1797,15 +1790,18 @@ func (d *Data) sendJSONValuesInRange(ctx storage.VersionedCtx, w http.ResponseWr
 				if err != nil {
 					return err
 				}
+				bodyid, err := parseKeyStr(key)
+				if err != nil {
+					return err
+				}
+				if bodyid < bodyidBeg || bodyid > bodyidEnd {
+					return nil
+				}
 				var jsonData NeuronJSON
 				if err := json.Unmarshal(kv.V, &jsonData); err != nil {
 					return err
 				}
 				out := removeReservedFields(jsonData, showFields)
-				bodyid, err := parseKeyStr(key)
-				if err != nil {
-					return err
-				}
 				writeCh <- writeData{bodyid, out}
 				return nil
 			})
